@@ -59,10 +59,10 @@ const (
 
 func drawCase(t *rapid.T) Case {
 	var c Case
-	c.LevelDB = rapid.IntRange(0, 4).Draw(t, "leveldb") == 0
+	c.LevelDB = rapid.IntRange(0, 4).Draw(t, "leveldb") == 3 // rapid favours small values: compare with a mid-range one
 	nid := rapid.IntRange(2, 5).Draw(t, "identities")
 	c.Multi = make([]bool, nid)
-	if rapid.IntRange(0, 3).Draw(t, "multicase") == 0 {
+	if rapid.IntRange(0, 3).Draw(t, "multicase") == 2 {
 		for i := range c.Multi {
 			c.Multi[i] = rapid.Bool().Draw(t, "multi")
 		}
@@ -110,7 +110,7 @@ func drawCase(t *rapid.T) Case {
 			}
 			continue
 		}
-		if rapid.IntRange(0, 11).Draw(t, "remove") == 0 {
+		if rapid.IntRange(0, 11).Draw(t, "remove") == 7 {
 			trs[s].Gone = true
 			c.Steps = append(c.Steps, Step{Kind: "remove", Slot: s})
 			continue
